@@ -584,13 +584,16 @@ static void thrown_object_identity(void) {
     var x = kind == 0 ? (var)$I(42) : kind == 1 ? (var)$S("stack text") : kind == 2 ? (var)$F(2.5) : kind == 3 ? heap_i : kind == 4 ? heap_s : (var)KeyError;
     /* a filter is compared with the thrown object by eq: it has to be an object of the same type */
     var other = (kind == 0 || kind == 3) ? (var)$I(-1) : (kind == 1 || kind == 4) ? (var)$S("another text") : kind == 2 ? (var)$F(-1.0) : (var)IOError;
-    for (int route = 0; route < 4; route++) {
+    /* a filter entry that compares equal to the thrown object without being it (values; a type object is its own twin) */
+    var twin = kind == 0 ? (var)$I(42) : kind == 1 ? (var)$S("stack text") : kind == 2 ? (var)$F(2.5) : kind == 3 ? (var)$I(77) : kind == 4 ? (var)$S("heap text") : (var)KeyError;
+    for (int route = 0; route < 5; route++) {
       volatile var bound = NULL; volatile int handled = 0;
       size_t d0 = len(current(Exception));
       switch (route) {
         case 0: try { throw(x, "from the body"); } catch (e) { bound = e; handled++; } break;
         case 1: try { thrower(x); } catch (e in x) { bound = e; handled++; } break;
         case 2: try { try { thrower(x); } catch (e in other) { handled += 100; } } catch (e) { bound = e; handled++; } break;
+        case 4: try { thrower(x); } catch (e in other, twin) { bound = e; handled++; } if (twin != x) { vh_count("handlers_chosen_by_an_equal_but_distinct_filter_entry"); } break;
         default: try { try { throw(IOError, "first"); } catch (e) { throw(x, "from a handler"); } } catch (e2) { bound = e2; handled++; } break;
       }
       vh_evals(3);
